@@ -519,7 +519,8 @@ def make_binner(rng, native_wn):
     else:
         b = SimpleBinner(grid.copy(), None if widths is None else widths.copy())
     declared = None if widths is None else sorted(zip(grid.tolist(), widths.tolist()))
-    return b, kind, (grid, declared)
+    ctor = (type(b), grid.copy(), None if widths is None else widths.copy())
+    return b, kind, (grid, declared, ctor)
 
 
 def judge_spectrum_group(ctx, content, base, binner, kind, decl, size, result, wit):
@@ -558,16 +559,19 @@ def judge_spectrum_group(ctx, content, base, binner, kind, decl, size, result, w
     # widths: dlambda = 1e4 * dnu / nu^2 at the bin centre  (three roundings)
     ctx.close('binned-wlwidth:' + kind, bwlw, 1e4 * bwnw / bwn ** 2, 1e-14,
               stored_is_reciprocal_of_wnwidth=bool(np.allclose(bwlw, 1.0 / bwnw, rtol=1e-14, atol=0)), **wit)
-    grid, declared = decl
+    grid, declared, ctor = decl
     if declared is not None:
         got_pairs = sorted(zip(bwn.tolist(), bwnw.tolist()))
         ctx.close('binned-wnwidth-of-same-bins', np.array(got_pairs), np.array(declared), 0.0, **wit)
     else:
         order = np.argsort(grid) if kind == 'FluxBinner' else np.arange(len(grid))
         ctx.close('binned-wnwidth-of-same-bins', bwnw, compute_bin_edges(np.asarray(grid)[order])[-1], 1e-15, **wit)
-    ctx.close('binned=binner(stored-native)', bsp, binner.bindown(wn, flux)[1], 1e-14, **wit)
+    # "the binner applied to the stored native spectrum": a FRESH binner object of the same declaration, so that
+    # anything the used binner remembers from earlier grids cannot vouch for itself
+    fresh = ctor[0](ctor[1].copy(), None if ctor[2] is None else ctor[2].copy())
+    ctx.close('binned=binner(stored-native)', bsp, fresh.bindown(wn, flux)[1], 1e-14, **wit)
     if btau is not None:
-        ctx.close('binned-tau=binner(tau)', btau, binner.bindown(wn, np.asarray(result[2]))[1], 1e-14, **wit)
+        ctx.close('binned-tau=binner(tau)', btau, fresh.bindown(wn, np.asarray(result[2]))[1], 1e-14, **wit)
 
 
 def store_and_judge_spectrum(ctx, rng, result, tag, extra=None, binner_t=None, want_binner=False):
